@@ -276,6 +276,10 @@ def sign_rule(chk, db):
         chk.analysis_broken("SIGN: no formatting kernel that emits '-' found")
 
 
+META_EXTRA = "NEG (no negation of a possibly-minimum signed value); SIGN ('-' on every path that may format a negative value)."
+META = (META[0] + " " + META_EXTRA, META[1])
+
+
 def run(chk, tier):
     db = D.load("plain")
     bound_rule(chk, db)
